@@ -57,6 +57,21 @@ def persist_clause(cl, rng, n, replay):
             if not ok:
                 cl.fail("hvsrpy.seismic_recording_3c.SeismicRecording3C.save", f"samples / time step not restored bit for bit after {log}", signature="persist:samples")
                 return
+            if j % 2 == 1:
+                # the same recording saved a second time after further operations (the in-place taper among them): the file holds its state at that save
+                log2 = []
+                rec.window(type="tukey", width=float(rng.choice([0.2, 0.5])))
+                log2.append("window")
+                if rng.random() < 0.5:
+                    _ops(rng, rec, log2)
+                rec.save(fn)
+                back = hvsrpy.SeismicRecording3C.load(fn)
+                cl.case((j, tuple(map(str, log)), "second save", tuple(map(str, log2))), nontrivial=True)
+                if not all(getattr(back, c).amplitude.tobytes() == getattr(rec, c).amplitude.tobytes() and getattr(back, c).dt_in_seconds == getattr(rec, c).dt_in_seconds
+                           for c in ("ns", "ew", "vt")):
+                    cl.fail("hvsrpy.seismic_recording_3c.SeismicRecording3C.save", f"second save of the same recording after {log2}: the file does not hold its current samples",
+                            signature="persist:second-save")
+                    return
             dd = rec.degrees_from_north
             if abs(((back.degrees_from_north - dd) / 360) - round((back.degrees_from_north - dd) / 360)) > 1e-12 or not (0 <= back.degrees_from_north < 360):
                 cl.fail("hvsrpy.seismic_recording_3c.SeismicRecording3C.load", f"orientation {dd} restored as {back.degrees_from_north}", signature="persist:orientation")
